@@ -373,6 +373,10 @@ def _handle_generic_types(
         if not required_args or not incoming_args:
             return True
 
+        # Literal arguments are values, not types: every incoming value must be allowed
+        if incoming_origin is Literal:
+            return all(value in required_args for value in incoming_args)
+
         # Require same arity for generic args
         if len(incoming_args) != len(required_args):
             return False
